@@ -38,6 +38,18 @@ Proof. exact run_wk. Qed.
 Theorem C07_getters_total : forall e v, wk e -> Summary.get e v = Val (e v).
 Proof. exact get_wk. Qed.
 
+(* canonical text, stated on the text alone ([is_canonical]: the text is its
+   lines each ended by one LF; every line is 'VAR=value' with a known VAR and, for
+   the two sizes, an integer in printed form; lines grouped by variable in the
+   fixed order, single-valued variables at most once; the eleven required
+   variables present): such a text parses and prints back byte for byte ... *)
+Theorem C07_canonical_text_round_trip : forall t, is_canonical t = true ->
+  exists e, parse_entry t = Val e /\ print_entry e = t.
+Proof. exact canonical_print_parse. Qed.
+(* ... and every generated text is of that form *)
+Theorem C07_printed_is_canonical : forall e, wk e -> values_ok e -> complete e -> is_canonical (print_entry e) = true.
+Proof. exact printed_is_canonical. Qed.
+
 Definition ex_entry : entry :=
   fun v => match v with
            | BuildDate => Some (VS (lit "2024-01-01")) | Categories => Some (VS (lit "devel"))
@@ -50,3 +62,9 @@ Definition ex_entry : entry :=
 Example C07_example : exists e', parse_entry (print_entry ex_entry) = Val e' /\
   print_entry e' = print_entry ex_entry /\ e' Description = ex_entry Description /\ e' SizePkg = ex_entry SizePkg.
 Proof. eexists. split; [vm_compute; reflexivity|]. vm_compute. repeat split. Qed.
+Example C07_canonical_example :
+  is_canonical (print_entry ex_entry) = true /\
+  is_canonical (print_entry (upd ex_entry Comment (VS (lit "a" ++ [13] ++ lit "b")))) = true /\
+  is_canonical (print_entry ex_entry ++ lit "x") = false /\
+  is_canonical (lit "SIZE_PKG=+5" ++ [10] ++ print_entry ex_entry) = false.
+Proof. vm_compute. repeat split. Qed.
